@@ -40,7 +40,10 @@ structure GRec where
   g : Gauge
   sf : Bool
   dur : Int
+  distDenom : String := ""      -- swap-fee gauges: denomination of `DistributedAmount` ("" = that of the deposit)
   deriving Repr, DecidableEq
+
+def GRec.dd (r : GRec) : String := if r.distDenom = "" then r.denom else r.distDenom
 
 structure XRec where
   kind : String
@@ -92,7 +95,7 @@ structure St where
   epochs : List Epoch := []
   now : Int := 0
   dists : List DistIn := []
-  sfx : List (Nat × Xfer) := []                    -- outcome of the swap-fee transfer per swap-fee gauge reached in this block
+  sfx : List (Nat × Xfer × String) := []                    -- outcome of the swap-fee transfer per swap-fee gauge reached in this block
   leaked : List (String × Int) := []               -- per denomination: coins a swap-fee trigger paid without booking them (regression of D44), cumulative
   leakNow : List (String × Int) := []              -- … in the current block
   shareIns : List ShareIn := []
@@ -149,6 +152,12 @@ def recList {α : Type} (s : String) (f : List String → Option α) : Option (L
   if s = "" || s = "-" then some [] else (s.splitOn ";").mapM (fun r => f (r.splitOn ":"))
 
 def parseG : List String → Option GRec
+  | [gid, denom, dep, dist, trig, total, act, sf, dur, start, dden] => do
+    let gid ← parseNat? gid; let dep ← parseInt? dep; let dist ← parseInt? dist
+    let trig ← parseNat? trig; let total ← parseNat? total; let act ← parseBool? act
+    let sf ← parseBool? sf; let dur ← parseInt? dur; let start ← parseInt? start
+    pure { gid := gid, denom := denom, sf := sf, dur := dur, distDenom := dden,
+           g := { deposit := dep, distributed := dist, triggered := trig, total := total, active := act, start := start } }
   | [gid, denom, dep, dist, trig, total, act, sf, dur, start] => do
     let gid ← parseNat? gid; let dep ← parseInt? dep; let dist ← parseInt? dist
     let trig ← parseNat? trig; let total ← parseNat? total; let act ← parseBool? act
@@ -271,7 +280,17 @@ def blockOps (st : St) (d : String) (trigDurs : List Int) : Except String (List 
           if r.g.deposit > 0 && (distFor st r.gid).isNone then throw s!"no gauge.dist line for swap-fee gauge {r.gid}"
           match st.sfx.find? (·.1 = r.gid) with
           | none => throw s!"no gauge.sfxfer line for swap-fee gauge {r.gid}"
-          | some (_, x) => ops := ops ++ [BOp.sfTrigger i dd x]
+          | some (_, x, _) => ops := ops ++ [BOp.sfTrigger i dd x]
+      -- a swap-fee gauge of another denomination whose fees arrive in this one (`SwapFeeDistrDenom` changed)
+      if r.dur = dur && r.denom ≠ d && r.sf then
+        match st.sfx.find? (·.1 = r.gid) with
+        | some (_, .moved amt, nd) =>
+          if nd = d then
+            let dd := match distFor st r.gid with | some di => di.d | none => DistData.err
+            match sfTrigger (toSf r) dd (.moved amt) with
+            | .ok (g', _, _) => if g'.triggered = r.g.triggered + 1 then ops := ops ++ [BOp.sfArrive amt g'.triggered]
+            | .error _ => pure ()
+        | _ => pure ()
       if r.dur = dur && r.denom = d && !r.sf then
         match idxOf gids r.gid with
         | none => throw "gauge index"
@@ -303,13 +322,13 @@ def paidOf (st : St) (d : String) (trigDurs : List Int) : List (Nat × Int) :=
     st.gs.foldl (fun (acc : Int × List (Nat × Int)) r =>
       if r.dur = dur && r.denom = d && r.sf then
         match distFor st r.gid, st.sfx.find? (·.1 = r.gid) with
-        | some di, some (_, x) =>
+        | some di, some (_, x, _) =>
           match sfTrigger (toSf r) di.d x with
           | .ok (_, sends, recv) =>
             let (b, got) := sendAll acc.1 sends
             (b + recv, acc.2 ++ di.recv.zip got)
           | .error _ => acc
-        | none, some (_, .ok amt) => (acc.1 + amt, acc.2)
+        | none, some (_, .ok amt, _) => (acc.1 + amt, acc.2)
         | _, _ => acc
       else if r.dur = dur && r.denom = d && !r.sf then
         match distFor st r.gid with
@@ -411,7 +430,18 @@ def runBlock (st0 : St) : St × List String :=
           match idxOf ((sfsOf st r.denom).map (·.gid)) r.gid with
           | none => r
           | some i => match l.sfs[i]? with
-            | some g => { r with g := { r.g with deposit := g.deposit, distributed := g.distributed, triggered := g.triggered } }
+            | some g =>
+              -- `DistributedAmount` is REPLACED by the distributed coin when its denomination differs from the deposit's (gauge.go:275-279)
+              let dd := match distFor st r.gid with | some di => di.d | none => DistData.err
+              let (dist, dden) := match sfDistribute (toSf r) dd with
+                | .ok (some (_, sends)) => if r.g.deposit > 0 && r.dd ≠ r.denom then (sumL sends, r.denom) else (g.distributed, r.dd)
+                | _ => (g.distributed, r.dd)
+              match st.sfx.find? (·.1 = r.gid) with
+              | some (_, .moved amt, nd) =>
+                if g.triggered = r.g.triggered + 1 then
+                  { r with denom := nd, distDenom := dden, g := { r.g with deposit := amt, distributed := dist, triggered := g.triggered } }
+                else { r with distDenom := dden, g := { r.g with deposit := g.deposit, distributed := dist, triggered := g.triggered } }
+              | _ => { r with distDenom := dden, g := { r.g with deposit := g.deposit, distributed := dist, triggered := g.triggered } }
             | none => r
         else
         match idxOf ((gaugesOf st r.denom).map (·.gid)) r.gid with
@@ -446,6 +476,10 @@ def gaugeMons (tag : String) (prev : List GRec) (real : List GRec) : List String
       match prev.find? (·.gid = r.gid) with
       | none => out
       | some p =>
+        if p.denom ≠ r.denom || p.dd ≠ r.dd then
+          -- the deposit / distributed coin changed denomination: amounts are not comparable; custody (per denomination) covers them
+          (if decide (0 ≤ r.g.deposit) && decide (0 ≤ r.g.distributed) && decide (r.g.distributed ≤ p.g.deposit || p.dd = r.dd)
+           then out else out ++ [s!"MON\t{tag}\tsf_epoch_cap\tgauge={r.gid}"]) else
         let paid := r.g.distributed - p.g.distributed
         let ok := decide (0 ≤ r.g.deposit) && decide (0 ≤ paid) && (decide (paid ≤ p.g.deposit) || decide (paid = 0)) &&
           decide (p.g.deposit - paid ≤ r.g.deposit) &&
@@ -683,10 +717,12 @@ def handle (st : St) (seq : String) (f : List String) : St × List String :=
       let dd : DistData := if outcome = "err" then .err else if outcome = "panic" then .ok [-1] else .ok rewards
       ({ st with dists := st.dists ++ [{ gid := gid, d := dd, recv := recv }] }, d ++ mon ++ da)
     | _, _, _, _, _ => (st, [s!"BAD\t{seq}\tdist"])
-  | ["gauge.sfxfer", gid, outcome, amount] =>
+  | ["gauge.sfxfer", gid, outcome, amount, denom] =>
     match parseNat? gid, parseNat? amount with
     | some gid, some amount =>
-      ({ st with sfx := st.sfx ++ [(gid, if outcome = "ok" then Xfer.ok amount else Xfer.err)] }, [])
+      let gden := match st.gs.find? (·.gid = gid) with | some r => r.denom | none => denom
+      let x := if outcome ≠ "ok" then Xfer.err else if gden = denom then Xfer.ok amount else Xfer.moved amount
+      ({ st with sfx := st.sfx ++ [(gid, x, denom)] }, [])
     | _, _ => (st, [s!"BAD\t{seq}\tsfxfer"])
   | ["gauge.xshare", kind, eid, halt, total, users] =>
     match parseNat? eid, parseBool? halt, parseInt? total, (if users = "-" || users = "" then some [] else (users.splitOn ",").mapM (fun e => parseUser (e.splitOn ":"))) with
@@ -717,7 +753,8 @@ def handle (st : St) (seq : String) (f : List String) : St × List String :=
       let cmp := real.foldl (fun out r =>
         if r.sf then
           match st.predGs.find? (·.gid = r.gid) with
-          | some p => if toSf p = toSf r then out else out ++ [s!"DIFF\t{seq}\tswap-fee gauge model={showG p}\timpl={showG r}"]
+          | some p => if toSf p = toSf r && p.denom = r.denom && p.dd = r.dd then out
+                      else out ++ [s!"DIFF\t{seq}\tswap-fee gauge model={showG p} dist={p.dd}\timpl={showG r} dist={r.dd}"]
           | none => out ++ [s!"DIFF\t{seq}\tswap-fee gauge {r.gid} unknown to the model"]
         else
         match st.predGs.find? (·.gid = r.gid) with
@@ -734,7 +771,7 @@ def handle (st : St) (seq : String) (f : List String) : St × List String :=
         | some p, some q =>
           let expected := q.g.distributed - p.g.distributed
           let booked := r.g.distributed - p.g.distributed
-          if q.g.triggered = p.g.triggered && expected > 0 && booked < expected then acc ++ [(r.denom, expected - booked)] else acc
+          if q.g.triggered = p.g.triggered && q.dd = p.dd && r.dd = p.dd && expected > 0 && booked < expected then acc ++ [(r.denom, expected - booked)] else acc
         | _, _ => acc) []
       let leakMons := leaks.map (fun p => s!"MON\t{seq}\tsf_leak\tdenom={p.1} paid-but-not-booked={p.2}")
       let leaked := leaks.foldl (fun acc p => setBal acc p.1 (lookupBal acc p.1 + p.2)) st.leaked
